@@ -297,6 +297,31 @@ def explore(run, bound, roots=None, max_exec=None):
         stack.extend(reversed(new))
 
 
+def split(run, bound, min_cost, max_expand=800):
+    """Executes the default schedule and, breadth first, every prefix whose preemption cost is
+    below `min_cost` (their subtrees are the big ones: free switches - which thread starts, who
+    runs after an exit or a block - cost nothing).  Returns (executions, roots): the executions
+    made here (to be checked by the caller like any other) and the remaining prefixes, each the
+    root of an independent subtree, to be explored elsewhere with `explore(..., roots=...)`.
+    Together they cover exactly the schedules `explore(run, bound)` would visit."""
+    execs, roots = [], []
+    queue = [([], None, 0)]
+    while queue:
+        prefix, expect, cost = queue.pop(0)
+        if prefix and (cost >= min_cost or len(execs) >= max_expand):
+            roots.append((prefix, expect))
+            continue
+        x = run(prefix, expect)
+        execs.append(x)
+        for i in range(len(prefix), len(x.points)):
+            nalt, run_en = x.points[i]
+            c = cost + (1 if run_en else 0)
+            if c <= bound:
+                for alt in range(1, nalt):
+                    queue.append((x.choices[:i] + [alt], x.points[:i + 1], c))
+    return execs, roots
+
+
 def first_level(run, bound):
     """The default execution plus all one-deviation prefixes: used to split the tree into
     independent subtrees for worker processes."""
